@@ -125,6 +125,7 @@ type Result struct {
 	Blocked    []string // threads still parked when the execution ended (after main returned)
 	LogHash    uint64
 	Races      []string
+	Aborted    bool
 	VirtualEnd time.Duration
 }
 
@@ -147,6 +148,7 @@ type exec struct {
 	maxTime  time.Duration
 	tracing  bool
 	mainDone bool
+	aborted  bool
 	locs     map[unsafe.Pointer]*locState
 	cleanups []func()
 }
@@ -305,7 +307,8 @@ func (e *exec) loop() {
 	// start main
 	e.run(e.threads[0])
 	for {
-		if e.mainDone || e.threads[0].done {
+		if e.mainDone || e.threads[0].done || e.aborted {
+			e.res.Aborted = e.aborted
 			return
 		}
 		if e.res.Steps >= e.maxSteps || e.now > e.maxTime {
@@ -662,3 +665,41 @@ func keyLess(a, b any) bool {
 	}
 	return fmt.Sprintf("%v", a) < fmt.Sprintf("%v", b)
 }
+
+var fsObj uint8
+
+// FSPoint is a scheduling point before a file-system call; the file system is
+// one object for happens-before purposes (all FS calls are mutually ordered).
+func FSPoint(label string) {
+	if !Active() {
+		return
+	}
+	e := ex
+	e.point(&op{kind: opFS, label: label})
+	e.acqrel(e.obj(unsafe.Pointer(&fsObj)))
+}
+
+var netObj uint8
+
+// NetPoint is the same for the fake network.
+func NetPoint(label string) {
+	if !Active() {
+		return
+	}
+	e := ex
+	e.point(&op{kind: opNet, label: label})
+	e.acqrel(e.obj(unsafe.Pointer(&netObj)))
+}
+
+// Abort ends the execution right here (crash): no further transition is
+// executed, every thread including the caller is torn down.
+func Abort() {
+	if ex == nil {
+		return
+	}
+	ex.aborted = true
+	panic(poisonSentinel)
+}
+
+// Aborted reports whether the current/last execution was ended by Abort.
+func (r *Result) WasAborted() bool { return r.Aborted }
